@@ -108,6 +108,8 @@ def o_gac(op, mesh, target, line, out, hessian_input=False):
         cur, mag = complexity_ref(mesh, mesh.metric)
         if not (cur > 0 and mag < 1.5 * cur):
             return
+        if not (1e-12 * cur < target < 1e12 * cur):
+            return          # far outside: the ref_math_divisible guard may legitimately answer div_zero
     if mesh.twod != (not have_vol(mesh)) or not all(mesh.owned):
         return
     if w[0] != 'ok':
